@@ -16,6 +16,7 @@ Inductive case :=
          (lib : Std.Lib.lib)                      (* the standard library the lints ran with *)
          (ignored : list string)                  (* variable names the ignore_pattern matches *)
          (allow_self : bool)
+         (sh_ignored : list string)               (* variable names shadowing's ignore_pattern matches *)
 | CScopePanic (chunk : block).
 
 Definition var_ident (s : st) (id : N) : range :=
@@ -51,14 +52,14 @@ Definition var_eqb (s : st) (m : rvar) (i : ivar) : bool :=
 
 Definition check_case (c : case) : N * N :=
   match c with
-  | CScope chunk irefs ivars roots undefined shadowing unused_f lib ignored allow_self =>
+  | CScope chunk irefs ivars roots undefined shadowing unused_f lib ignored allow_self sh_ignored =>
       let unused := map fst unused_f in
       let corr :=
         match scope_manager chunk with
         | Some s => list_eqb2 (ref_eqb s) (refs s) irefs && list_eqb2 (var_eqb s) (Interp.vars s) ivars
                     && list_eqb2 Interp.range_eq (undefined_report s roots) undefined
                     && list_eqb2 (fun a b => Interp.range_eq (fst a) (fst b) && Interp.range_eq (snd a) (snd b))
-                                 (shadowing_report s) shadowing
+                                 (shadowing_report_with (fun n => existsb (str_eqb n) sh_ignored) s) shadowing
         | None => false
         end in
       (* the specification (Lua scoping), evaluated on what the implementation reported *)
@@ -76,7 +77,7 @@ Definition check_case (c : case) : N * N :=
       let os := occs chunk in
       let ds := decls chunk in
       let z1 := c01_zone os roots undefined in
-      let z3 := c03_zone os ds shadowing in
+      let z3 := c03_zone_with (fun n => existsb (str_eqb n) sh_ignored) os ds shadowing in
       let captured := fun r => existsb (fun v => Zones.range_eq (iv_range v) r
                                                  && match iv_refs v with [] => false | _ => true end) ivars in
       let z2 := c02_zone os ds roots unused captured (fun n => existsb (str_eqb n) ignored) allow_self in
